@@ -16,8 +16,8 @@ typedef struct LDG_NoLabel RAbs;
 #define __CPROVER_is_fresh(p, n) 1
 bg_file_t bg_file; bg_bool bg_SYSTEM_IS_BIG_ENDIAN = 0;
 static const char *bg_failed = 0;
-int main() {
-  long calls = 0; int rc = 0; const char *path = "/tmp/ev15/replay/C15_loadBinaryEdgeList_1_NoLabel_LDG_NoLabel_string_loadBinaryEdgeList_1_NoLabel_LDG_NoLabel_string_Check_invariant_afte.edges.bin";
+int main(int argc, char **argv) {
+  long calls = 0; int rc = 0; std::string path_s = std::string(argv[0]) + ".edges.bin"; const char *path = path_s.c_str();
   bg_install_handlers();
   const int V = 3, MAXREC = 3;
   for (int len = 0; len <= MAXREC && !rc; ++len) {
